@@ -778,6 +778,25 @@ def _is_scalar_const_value(val: Optional[ir.Value]) -> bool:
     return True
 
 
+def _chain_side_inputs_ok(node: ir.Node, chain_value: Optional[ir.Value]) -> bool:
+    """Return whether a multi-input elementwise node may sit on a folded chain.
+
+    Folding a Transpose/Reshape pair across ``node`` changes the layout of the
+    operand that flows along the chain only. That is sound when every other
+    operand is layout-free (a scalar constant); CastLike's second input supplies
+    only the target dtype.
+    """
+    ins = _node_inputs(node)
+    if node.op_type == "CastLike":
+        return bool(ins) and ins[0] is chain_value
+    for iv in ins:
+        if iv is None or iv is chain_value:
+            continue
+        if not _is_scalar_const_value(iv):
+            return False
+    return True
+
+
 def _is_elementwise_node(node: ir.Node) -> bool:
     return (
         node.op_type in ELEMENTWISE_UNARY_OPS or node.op_type in ELEMENTWISE_BINARY_OPS
@@ -1686,13 +1705,17 @@ def remove_redundant_transpose_pairs_ir(graph: ir.Graph) -> None:
                 cur = consumers[0]
                 T2: Optional[ir.Node] = None
                 steps = 0
+                chain_val: Optional[ir.Value] = T1_out
                 while steps < 8:
                     steps += 1
                     m = cur
                     if m.op_type in ALLOWED_ELEMWISE:
+                        if not _chain_side_inputs_ok(m, chain_val):
+                            break
                         chain_nodes.append(m)
                         allowed_nodes.append(m)
                         cur_val = _node_output(m)
+                        chain_val = cur_val
                         next_nodes = _consumer_nodes(nodes, cur_val)
                         if len(next_nodes) != 1:
                             break
@@ -1834,6 +1857,8 @@ def remove_redundant_reshape_pairs_ir(graph: ir.Graph) -> None:
                     prod_node.op_type in ALLOWED_ELEMWISE
                     and (getattr(prod_node, "domain", "") or "") == ""
                 ):
+                    if not _chain_side_inputs_ok(prod_node, _first_input(prod_node)):
+                        break
                     allowed_nodes.append(prod_node)
                     v = _first_input(prod_node)
                     continue
